@@ -212,6 +212,23 @@ pub fn build(tier: Tier) -> Check<'static> {
             through_all(acc, &src, "macro body soup", false);
         }));
     }
+    {
+        // file names of `include directives: literal, angle-bracketed and produced by a macro, over a
+        // lexical alphabet (empty, one character, multi-byte, stray quotes and brackets)
+        let pieces: [&'static str; 9] = ["q", "é", "\"", "<", ">", " ", ".", "/", "日"];
+        let sp = soup::strings(&pieces, 0, tier.pick(3, 4), &[""]);
+        c.parts.push(Part::new("include-name-soup", sp.len() * 4, "`include \"<name>\" / `include <<name>> / `define I <name> + `include `I / `define I(x) x + `include `I(<name>), every name of <= 3 (quick) / 4 (thorough) pieces of {q, é, \", <, >, blank, ., /, 日}", move |i, acc| {
+            let name = sp.get(i / 4);
+            let src = match i % 4 {
+                0 => format!("`include \"{}\"\nx\n", name),
+                1 => format!("`include <{}>\nx\n", name),
+                2 => format!("`define I {}\n`include `I\nx\n", name),
+                _ => format!("`define I(x) x\n`include `I({})\nx\n", name),
+            };
+            acc.nontrivial += 1;
+            through_all(acc, &src, "include name soup", false);
+        }));
+    }
     let seeds = Arc::new(corpus::load());
     {
         // intact seeds and reference-grammar sentences: reach into every production for the tree accessors
